@@ -28,10 +28,10 @@ class FixedRng:
         self.value = value
 
     def randint(self, a, b):
-        return self.value
+        return max(a, min(b, self.value))         # a random source never leaves the range it was asked for
 
     def getrandbits(self, k):
-        return self.value
+        return self.value & ((1 << k) - 1)
 
 
 class RangeRng(FixedRng):
@@ -134,7 +134,19 @@ def _explore_item(arg):
     (kind, realmax, nc, d, st), P = arg
     out = {"execs": 0, "labels": None, "viol": [], "traces": [], "samples": []}
     seen = set()
-    for res, pol in explore.explore(lambda p: run_one(kind, nc, d, st, p), P, max_runs=200000):
+    def safe_run(p):
+        try:
+            return run_one(kind, nc, d, st, p)
+        except (simrt.MachineryError, AssertionError):
+            raise
+        except Exception as e:       # the generator itself raised (construction or a draw outside the worker threads)
+            return {"labels": None, "exits": [("generator", type(e).__name__)], "got": {}, "events": [], "raised": repr(e)}
+    for res, pol in explore.explore(safe_run, P, max_runs=200000):
+        if res.get("raised"):
+            out["execs"] += 1
+            out["viol"].append(("generator_raised", "the generator raised %s (kind %s, start %d)" % (res["raised"], kind, st),
+                                {"kind": kind, "callers": nc, "draws": d, "start": st, "schedule": [r[1] for r in pol.records]}))
+            break
         out["execs"] += 1
         out["labels"] = res["labels"]
         sched_ = [r[1] for r in pol.records]
